@@ -72,6 +72,58 @@ fn unnamed(_name: &str) -> (i64, i64) {
   (-1, -1)
 }
 
+/// every named cyclic type, handed one by one to the macro `$m`
+macro_rules! for_each_named {
+  ($m:ident, $acc:expr) => {{
+    $m!($acc, HeavenStem); $m!($acc, EarthBranch); $m!($acc, SixtyCycle); $m!($acc, Animal); $m!($acc, Beast); $m!($acc, Constellation);
+    $m!($acc, Direction); $m!($acc, Duty); $m!($acc, Element); $m!($acc, God); $m!($acc, Land); $m!($acc, Luck); $m!($acc, Phase);
+    $m!($acc, Sixty); $m!($acc, Sound); $m!($acc, Taboo); $m!($acc, Ten); $m!($acc, Terrain); $m!($acc, Twenty); $m!($acc, Week);
+    $m!($acc, Zodiac); $m!($acc, Zone); $m!($acc, Dog); $m!($acc, Nine); $m!($acc, PlumRain); $m!($acc, Phenology); $m!($acc, ThreePhenology);
+    $m!($acc, PengZuHeavenStem); $m!($acc, PengZuEarthBranch); $m!($acc, MinorRen); $m!($acc, Dipper); $m!($acc, NineStar); $m!($acc, TenStar);
+    $m!($acc, TwentyEightStar); $m!($acc, SixStar); $m!($acc, Ecliptic); $m!($acc, TwelveStar); $m!($acc, SevenStar); $m!($acc, LunarSeason);
+  }};
+}
+
+macro_rules! collect_names {
+  ($acc:expr, $ty:ty) => {{
+    let size = <$ty>::from_index(0).get_size() as isize;
+    for i in 0..size {
+      $acc.push(<$ty>::from_index(i).get_name());
+    }
+  }};
+}
+
+macro_rules! lookup_all {
+  ($acc:expr, $ty:ty) => {{
+    let pool: &Vec<String> = $acc.0;
+    let f: Box<dyn Fn()> = Box::new(move || {
+      for n in pool.iter() {
+        let _ = catch(|| <$ty>::from_name(n).get_index());
+      }
+    });
+    $acc.1.push(f);
+  }};
+}
+
+/// look every name of every cycle up in every named type (unknown names are refused: caught); `reverse` takes the
+/// types and the names in the opposite order.  Used by C19 to show that lookups leave no trace in later answers.
+pub fn warm_names(reverse: bool) {
+  let mut names: Vec<String> = Vec::new();
+  for_each_named!(collect_names, names);
+  if reverse {
+    names.reverse();
+  }
+  let mut acc: (&Vec<String>, Vec<Box<dyn Fn() + '_>>) = (&names, Vec::new());
+  for_each_named!(lookup_all, acc);
+  let mut fs = acc.1;
+  if reverse {
+    fs.reverse();
+  }
+  for f in fs {
+    f();
+  }
+}
+
 fn cyclic_all(sink: &mut Sink) {
   cyclic!(sink, 1, HeavenStem, named!(HeavenStem));
   cyclic!(sink, 2, EarthBranch, named!(EarthBranch));
@@ -120,8 +172,20 @@ fn cyclic_all(sink: &mut Sink) {
 /// one linear sample: projections through `proj`
 fn lin<T, N, P>(sink: &mut Sink, tid: i64, x: Option<T>, a: i64, b: i64, next: N, proj: P)
 where
+  T: Clone,
   N: Fn(&T, i64) -> T,
   P: Fn(&T) -> Vec<i64>,
+{
+  linc(sink, tid, x, a, b, next, proj, |v: &T| v.clone())
+}
+
+/// as `lin`, with `canon`: the value built afresh by the type's constructor at the position of its argument; a stepped
+/// value must be indistinguishable from it (fields `fca`, `fcs`: projections of canon(x.next(a)), canon(x.next(a+b)))
+fn linc<T, N, P, C>(sink: &mut Sink, tid: i64, x: Option<T>, a: i64, b: i64, next: N, proj: P, canon: C)
+where
+  N: Fn(&T, i64) -> T,
+  P: Fn(&T) -> Vec<i64>,
+  C: Fn(&T) -> T,
 {
   let x = match x {
     Some(x) => x,
@@ -134,8 +198,18 @@ where
   let fa = xa.as_ref().and_then(|v| catch_iso(|| proj(v))).unwrap_or_else(bad);
   let fab = xa.as_ref().and_then(|v| catch_iso(|| proj(&next(v, b)))).unwrap_or_else(bad);
   let fr = xa.as_ref().and_then(|v| catch_iso(|| proj(&next(v, -a)))).unwrap_or_else(bad);
-  let fs = catch_iso(|| proj(&next(&x, a + b))).unwrap_or_else(bad);
-  sink.put(Ev::new("lin").i("s", 0).i("t", tid).i("a", a).i("b", b).a("f0", &f0).a("fz", &fz).a("fa", &fa).a("fab", &fab).a("fs", &fs).a("fr", &fr).done());
+  let xs = catch_iso(|| next(&x, a + b));
+  let fs = xs.as_ref().and_then(|v| catch_iso(|| proj(v))).unwrap_or_else(bad);
+  let fca = xa.as_ref().and_then(|v| catch_iso(|| proj(&canon(v)))).unwrap_or_else(bad);
+  let fcs = xs.as_ref().and_then(|v| catch_iso(|| proj(&canon(v)))).unwrap_or_else(bad);
+  sink.put(Ev::new("lin").i("s", 0).i("t", tid).i("a", a).i("b", b).a("f0", &f0).a("fz", &fz).a("fa", &fa).a("fab", &fab).a("fs", &fs).a("fr", &fr).a("fca", &fca).a("fcs", &fcs).done());
+}
+
+/// a pair (a, b) of LARGE steps: both x.next(a) and x.next(a).next(b) are uniform over the whole range lo..hi (ordinals)
+fn far_pair(rng: &mut Rng, ord: i64, lo: i64, hi: i64) -> (i64, i64) {
+  let t1 = rng.range(lo, hi);
+  let t2 = rng.range(lo, hi);
+  (t1 - ord, t2 - t1)
 }
 
 fn pick_n(rng: &mut Rng, span: i64) -> i64 {
@@ -154,82 +228,159 @@ fn linear_all(ctx: &Ctx, sink: &mut Sink) {
   let n = if ctx.quick() { 3000 } else { 15000 };
   let day_of = |j: i64| catch(|| JulianDay::from_julian_day(j as f64 - 0.5).get_solar_day());
   let time_of = |j: i64, s: i64| day_of(j).and_then(|d| catch(|| SolarTime::from_ymd_hms(d.get_year(), d.get_month(), d.get_day(), (s / 3600) as usize, ((s / 60) % 60) as usize, (s % 60) as usize)));
+  const JLO: i64 = 1721424 + 800; // civil days well inside 0001..9999
+  const JHI: i64 = 5373484 - 800;
+  const LLO: i64 = 1815400; // lunar / sexagenary days after AD 244: the reform seams of AD 9-25 and 236-240 are C02/C03 findings
+  const LHI: i64 = 5373484 - 4000;
   for k in 0..n {
     // values near the edges of the supported range on a fifth of the samples
     let edge = k % 5 == 0;
+    // every fourth sample takes LARGE steps: x.next(a) and x.next(a).next(b) land anywhere in the unit's whole range
+    let far = k % 4 == 3;
     let y = if edge { *rng.pick(&[1i64, 2, 3, 9997, 9998, 9999]) } else { rng.range(1, 9999) };
-    let a = pick_n(&mut rng, 300);
-    let b = pick_n(&mut rng, 300);
-    // keep a, b such that all intermediate years stay inside 1..9999 for year-scaled units
-    let fit = |unit_per_year: i64, ord: i64, lo: i64, hi: i64, a: i64, b: i64| -> bool {
-      let _ = unit_per_year;
-      let v = [ord + a, ord + a + b, ord];
-      v.iter().all(|o| *o >= lo && *o <= hi)
+    let a0 = pick_n(&mut rng, 300);
+    let b0 = pick_n(&mut rng, 300);
+    // (a, b) for a unit whose ordinal is `ord` and whose legal ordinals are lo..hi; None when a small pair leaves the range
+    let mut ab = |rng: &mut Rng, ord: i64, lo: i64, hi: i64, a: i64, b: i64| -> Option<(i64, i64)> {
+      if far {
+        Some(far_pair(rng, ord, lo, hi))
+      } else if [ord, ord + a, ord + a + b].iter().all(|o| *o >= lo && *o <= hi) {
+        Some((a, b))
+      } else {
+        None
+      }
     };
-    if fit(1, y, 1, 9999, a, b) {
+    if let Some((a, b)) = ab(&mut rng, y, 1, 9999, a0, b0) {
       lin(sink, 101, catch(|| SolarYear::from_year(y as isize)), a, b, |x, n| x.next(n as isize), |x| vec![x.get_year() as i64]);
     }
-    if fit(1, y, -1, 9999, a, b) {
+    if let Some((a, b)) = ab(&mut rng, y, -1, 9999, a0, b0) {
       lin(sink, 102, catch(|| LunarYear::from_year(y as isize)), a, b, |x, n| x.next(n as isize), |x| vec![x.get_year() as i64]);
       lin(sink, 103, catch(|| SixtyCycleYear::from_year(y as isize)), a, b, |x, n| x.next(n as isize), |x| vec![x.get_year() as i64]);
     }
     let i2 = rng.range(0, 1);
-    if fit(2, 2 * y + i2, 2, 2 * 9999 + 1, a, b) {
+    if let Some((a, b)) = ab(&mut rng, 2 * y + i2, 2, 2 * 9999 + 1, a0, b0) {
       lin(sink, 104, catch(|| SolarHalfYear::from_index(y as isize, i2 as usize)), a, b, |x, n| x.next(n as isize), |x| vec![x.get_year() as i64, x.get_index() as i64]);
     }
     let i4 = rng.range(0, 3);
-    if fit(4, 4 * y + i4, 4, 4 * 9999 + 3, a, b) {
+    if let Some((a, b)) = ab(&mut rng, 4 * y + i4, 4, 4 * 9999 + 3, a0, b0) {
       lin(sink, 105, catch(|| SolarSeason::from_index(y as isize, i4 as usize)), a, b, |x, n| x.next(n as isize), |x| vec![x.get_year() as i64, x.get_index() as i64]);
     }
     let m = rng.range(1, 12);
-    if fit(12, 12 * y + m - 1, 12, 12 * 9999 + 11, a, b) {
+    if let Some((a, b)) = ab(&mut rng, 12 * y + m - 1, 12, 12 * 9999 + 11, a0, b0) {
       lin(sink, 106, catch(|| SolarMonth::from_ym(y as isize, m as usize)), a, b, |x, n| x.next(n as isize), |x| vec![x.get_year() as i64, x.get_month() as i64]);
     }
     let ti = rng.range(0, 23);
-    if fit(24, 24 * y + ti, 24 + 1, 24 * 9999 + 23, a, b) {
+    if let Some((a, b)) = ab(&mut rng, 24 * y + ti, 24 + 1, 24 * 9999 + 23, a0, b0) {
       lin(sink, 107, catch(|| SolarTerm::from_index(y as isize, ti as isize)), a, b, |x, n| x.next(n as isize), |x| vec![x.get_year() as i64, x.get_index() as i64]);
     }
     // sexagenary months: years -1..9999
     let sy = if edge { *rng.pick(&[-1i64, 0, 1, 9999]) } else { rng.range(-1, 9999) };
     let sk = rng.range(0, 11);
-    if fit(12, 12 * sy + sk, -12, 12 * 9999 + 11, a, b) {
-      lin(sink, 108, catch(|| SixtyCycleMonth::from_index(sy as isize, sk as isize)), a, b, |x, n| x.next(n as isize),
-        |x| vec![x.get_sixty_cycle_year().get_year() as i64, x.get_index_in_year() as i64, x.get_sixty_cycle().get_index() as i64]);
+    if let Some((a, b)) = ab(&mut rng, 12 * sy + sk, -12, 12 * 9999 + 11, a0, b0) {
+      linc(sink, 108, catch(|| SixtyCycleMonth::from_index(sy as isize, sk as isize)), a, b, |x, n| x.next(n as isize),
+        |x| vec![x.get_sixty_cycle_year().get_year() as i64, x.get_index_in_year() as i64, x.get_sixty_cycle().get_index() as i64],
+        |x| SixtyCycleMonth::from_index(x.get_sixty_cycle_year().get_year(), x.get_index_in_year() as isize));
     }
     // day-scaled units
-    let j = if edge { *rng.pick(&[1721424i64 + 800, 5373484 - 800, 2299160, 2299161]) } else { rng.range(1721424 + 800, 5373484 - 800) };
-    let (da, db) = (pick_n(&mut rng, 380), pick_n(&mut rng, 380));
-    lin(sink, 110, day_of(j), da, db, |x, n| x.next(n as isize), |x| vec![jdn(x)]);
-    lin(sink, 111, catch(|| JulianDay::from_julian_day(j as f64 - 0.5)), da, db, |x, n| x.next(n as isize), |x| vec![jdn_of(x.get_day()).0]);
-    // lunar / sexagenary days and weeks away from the reform seams and the range edges
-    // after AD 244: the reform seams of AD 9-25 and 236-240 are C02/C03 findings, not stepping defects
-    let jl = rng.range(1815400, 5373484 - 4000);
-    lin(sink, 112, day_of(jl).and_then(|d| catch_iso(|| d.get_lunar_day())), da, db, |x, n| x.next(n as isize), |x| vec![jdn(&x.get_solar_day())]);
-    lin(sink, 113, day_of(jl).and_then(|d| catch_iso(|| d.get_sixty_cycle_day())), da, db, |x, n| x.next(n as isize), |x| vec![jdn(&x.get_solar_day())]);
+    let j = if edge { *rng.pick(&[JLO, JHI, 2299160, 2299161]) } else { rng.range(JLO, JHI) };
+    let (da0, db0) = (pick_n(&mut rng, 380), pick_n(&mut rng, 380));
+    if let Some((da, db)) = ab(&mut rng, j, JLO - 790, JHI + 790, da0, db0) {
+      lin(sink, 110, day_of(j), da, db, |x, n| x.next(n as isize), |x| vec![jdn(x)]);
+      lin(sink, 111, catch(|| JulianDay::from_julian_day(j as f64 - 0.5)), da, db, |x, n| x.next(n as isize), |x| vec![jdn_of(x.get_day()).0]);
+    }
+    // lunar / sexagenary days and weeks away from the reform seams and the range edges; the projection carries the
+    // value's own fields (lunar date, pillars), compared with the value built afresh at the same position
+    let jl = rng.range(LLO + 800, LHI - 800);
+    if let Some((da, db)) = ab(&mut rng, jl, LLO, LHI, da0, db0) {
+      linc(sink, 112, day_of(jl).and_then(|d| catch_iso(|| d.get_lunar_day())), da, db, |x, n| x.next(n as isize),
+        |x| vec![jdn(&x.get_solar_day()), x.get_year() as i64, x.get_month() as i64, x.get_day() as i64, x.get_sixty_cycle().get_index() as i64],
+        |x| LunarDay::from_ymd(x.get_year(), x.get_month(), x.get_day()));
+      linc(sink, 113, day_of(jl).and_then(|d| catch_iso(|| d.get_sixty_cycle_day())), da, db, |x, n| x.next(n as isize),
+        |x| vec![jdn(&x.get_solar_day()), x.get_year().get_index() as i64, x.get_month().get_index() as i64, x.get_sixty_cycle().get_index() as i64],
+        |x| SixtyCycleDay::from_solar_day(x.get_solar_day()));
+    }
     let st = rng.range(0, 6);
-    let (wa, wb) = (pick_n(&mut rng, 60), pick_n(&mut rng, 60));
-    lin(sink, 114, day_of(jl).and_then(|d| catch(|| d.get_solar_week(st as usize))), wa, wb, |x, n| x.next(n as isize), |x| vec![jdn(&x.get_first_day())]);
-    lin(sink, 115, day_of(jl).and_then(|d| catch_iso(|| {
-      let l = d.get_lunar_day();
-      let mo = l.get_lunar_month();
-      // the lunar week that contains the day
-      let ws = mo.get_weeks(st as usize);
-      ws.into_iter().find(|w| w.get_days().iter().any(|x| *x == l)).unwrap()
-    })), wa, wb, |x: &LunarWeek, n| x.next(n as isize), |x| vec![jdn(&x.get_first_day().get_solar_day())]);
-    // lunar months: ordinal through the month walk is covered by C03; here only the group laws
-    let ly = rng.range(250, 9960);
+    let (wa0, wb0) = (pick_n(&mut rng, 60), pick_n(&mut rng, 60));
+    // weeks: ordinals in days, steps in weeks
+    // (week stepping walks month by month: far steps are capped at `cap` weeks to keep the run short)
+    let wk = |rng: &mut Rng, j0: i64, lo: i64, hi: i64, a: i64, b: i64, cap: i64| -> Option<(i64, i64)> {
+      if far {
+        let t1 = (j0 + 7 * rng.range(-cap, cap)).max(lo).min(hi);
+        let t2 = (t1 + 7 * rng.range(-cap, cap)).max(lo).min(hi);
+        Some(((t1 - j0) / 7, (t2 - t1) / 7))
+      } else if [j0, j0 + 7 * a, j0 + 7 * (a + b)].iter().all(|o| *o >= lo && *o <= hi) {
+        Some((a, b))
+      } else {
+        None
+      }
+    };
+    // civil weeks: every other far sample starts in 1400..2300 (the calendar reform and the dropped leap days of century years)
+    let jw = if far && k % 8 == 3 { rng.range(2232400, 2561100) } else { jl };
+    let wcap = if ctx.quick() { 30000 } else { 120000 };
+    if let Some((wa, wb)) = wk(&mut rng, jw, LLO, LHI, wa0, wb0, wcap) {
+      linc(sink, 114, day_of(jw).and_then(|d| catch(|| d.get_solar_week(st as usize))), wa, wb, |x, n| x.next(n as isize),
+        // a week is identified by its first day and start weekday (one week has two (month, index) names at a month border)
+        |x| vec![jdn(&x.get_first_day()), x.get_start().get_index() as i64],
+        |x| SolarWeek::from_ym(x.get_year(), x.get_month(), x.get_index(), x.get_start().get_index()));
+    }
+    let lcap = if ctx.quick() { 1500 } else { 6000 };
+    if let Some((wa, wb)) = wk(&mut rng, jl, LLO, LHI, wa0, wb0, lcap).filter(|_| !far || k % 16 == 3) {
+      linc(sink, 115, day_of(jl).and_then(|d| catch_iso(|| {
+        let l = d.get_lunar_day();
+        let mo = l.get_lunar_month();
+        // the lunar week that contains the day
+        let ws = mo.get_weeks(st as usize);
+        ws.into_iter().find(|w| w.get_days().iter().any(|x| *x == l)).unwrap()
+      })), wa, wb, |x: &LunarWeek, n| x.next(n as isize),
+        |x| vec![jdn(&x.get_first_day().get_solar_day()), x.get_start().get_index() as i64],
+        |x| LunarWeek::from_ym(x.get_year(), x.get_month(), x.get_index(), x.get_start().get_index()));
+    }
+    // lunar months: ordinal through the month walk is covered by C03; here the group laws and, on far samples,
+    // steps of up to +-3000 months (the walk of C03 never takes more than a few hundred at once)
+    let ly = rng.range(500, 9700);
     let lm = rng.range(1, 12);
-    let (ma, mb) = (pick_n(&mut rng, 40), pick_n(&mut rng, 40));
-    lin(sink, 116, catch_iso(|| LunarMonth::from_ym(ly as isize, lm as isize)), ma, mb, |x, n| x.next(n as isize),
-      |x| vec![x.get_year() as i64, x.get_month_with_leap() as i64, jdn_of(x.get_first_julian_day().get_day()).0]);
-    // instants: seconds
+    let (ma, mb) = if far { (rng.range(-3000, 3000), rng.range(-3000, 3000)) } else { (pick_n(&mut rng, 40), pick_n(&mut rng, 40)) };
+    linc(sink, 116, catch_iso(|| LunarMonth::from_ym(ly as isize, lm as isize)), ma, mb, |x, n| x.next(n as isize),
+      |x| vec![x.get_year() as i64, x.get_month_with_leap() as i64, jdn_of(x.get_first_julian_day().get_day()).0],
+      |x| LunarMonth::from_ym(x.get_year(), x.get_month_with_leap()));
+    // instants: seconds (|a|, |b| <= 10^9 so that sums stay inside 32 bits on the TLC side)
     let s = rng.range(0, 86399);
-    let (ta, tb) = (pick_n(&mut rng, 400000), pick_n(&mut rng, 400000));
+    let secs = |rng: &mut Rng, j0: i64, lo: i64, hi: i64| -> (i64, i64) {
+      if far {
+        let cap = |v: i64| v.max(-11000).min(11000); // days
+        let (x, y) = far_pair(rng, j0, lo, hi);
+        (cap(x) * 86400 + rng.range(-86399, 86399), cap(y) * 86400 + rng.range(-86399, 86399))
+      } else {
+        (pick_n(rng, 400000), pick_n(rng, 400000))
+      }
+    };
+    let (ta, tb) = secs(&mut rng, j, JLO + 2, JHI - 2);
     lin(sink, 120, time_of(j, s), ta, tb, |x, n| x.next(n as isize), |x| { let (a, b) = inst(x); vec![a, b] });
-    lin(sink, 121, time_of(jl, s).and_then(|t| catch_iso(|| t.get_sixty_cycle_hour())), ta, tb, |x: &SixtyCycleHour, n| x.next(n as isize), |x| { let (a, b) = inst(&x.get_solar_time()); vec![a, b] });
+    let (ta, tb) = secs(&mut rng, jl, LLO + 2, LHI - 2);
+    let sch = |x: &SixtyCycleHour| { let (a, b) = inst(&x.get_solar_time()); vec![a, b, x.get_year().get_index() as i64, x.get_month().get_index() as i64, x.get_day().get_index() as i64, x.get_sixty_cycle().get_index() as i64] };
+    linc(sink, 121, time_of(jl, s).and_then(|t| catch_iso(|| t.get_sixty_cycle_hour())), ta, tb, |x: &SixtyCycleHour, n| x.next(n as isize), sch,
+      |x| SixtyCycleHour::from_solar_time(x.get_solar_time()));
+    // ... and a step across a Jie instant that does not leave the civil day (month / year pillar turn inside a day)
+    if k % 6 == 1 {
+      let ty = rng.range(300, 9990);
+      let jie = catch(|| SolarTerm::from_index(ty as isize, 2 * rng.range(0, 11) as isize + 1)).and_then(|t| crate::c06::term_time(&t));
+      if let Some(jt) = jie {
+        let sod = inst(&jt).1;
+        if sod > 600 && sod < 86400 - 600 {
+          let u = rng.range(1, sod - 1);
+          let v = rng.range(1, 86399 - sod);
+          let x0 = catch(|| jt.next(-(u as isize))).and_then(|t| catch_iso(|| t.get_sixty_cycle_hour()));
+          let (a, b) = if k % 12 == 1 { (u + v, -(rng.range(0, u + v))) } else { (u + v, -(u + v) - rng.range(0, sod - u)) };
+          linc(sink, 121, x0, a, b, |x: &SixtyCycleHour, n| x.next(n as isize), sch, |x| SixtyCycleHour::from_solar_time(x.get_solar_time()));
+        }
+      }
+    }
     // lunar hours: double-hours
-    let (ha, hb) = (pick_n(&mut rng, 100), pick_n(&mut rng, 100));
-    lin(sink, 122, time_of(jl, s).and_then(|t| catch_iso(|| t.get_lunar_hour())), ha, hb, |x: &LunarHour, n| x.next(n as isize), |x| { let (a, b) = inst(&x.get_solar_time()); vec![a, b] });
+    let (ha, hb) = if far { (rng.range(-100000, 100000), rng.range(-100000, 100000)) } else { (pick_n(&mut rng, 100), pick_n(&mut rng, 100)) };
+    let jh = rng.range(LLO + 20000, LHI - 20000);
+    linc(sink, 122, time_of(jh, s).and_then(|t| catch_iso(|| t.get_lunar_hour())), ha, hb, |x: &LunarHour, n| x.next(n as isize),
+      |x| { let (a, b) = inst(&x.get_solar_time()); let e = x.get_eight_char(); vec![a, b, x.get_year() as i64, x.get_month() as i64, x.get_day() as i64, x.get_hour() as i64, e.get_month().get_index() as i64, e.get_day().get_index() as i64, e.get_hour().get_index() as i64] },
+      |x| LunarHour::from_ymd_hms(x.get_year(), x.get_month(), x.get_day(), x.get_hour(), x.get_minute(), x.get_second()));
     // fortunes
     if k % 10 == 0 {
       let cl = time_of(jl, s).and_then(|t| catch_iso(|| ChildLimit::from_solar_time(t, if k % 20 == 0 { Gender::MAN } else { Gender::WOMAN })));
@@ -239,9 +390,6 @@ fn linear_all(ctx: &Ctx, sink: &mut Sink) {
         lin(sink, 131, Some(cl.get_start_fortune()), fa, fb, |x: &Fortune, n| x.next(n as isize), |x| vec![x.get_index() as i64, x.get_sixty_cycle().get_index() as i64, x.get_age() as i64]);
       }
     }
-    let _: Option<LunarDay> = None;
-    let _: Option<SixtyCycleDay> = None;
-    let _: Option<SolarWeek> = None;
   }
 }
 
